@@ -17,5 +17,6 @@ func Run(r *ev.Run) {
 	}
 	runHistories(r)
 	runChunks(r)
+	runServiceQueue(r)
 	runSchedules(r)
 }
